@@ -17,4 +17,5 @@ Definition uisra_race_used := UniqueIndexSetRA.vrace_used.
 Definition uisra_oracle := UniqueIndexSetRA.voracle.
 Definition uisra_sc (l : UniqueIndexSetRA.vlst) := UniqueIndexSetRA.vsc l.
 Definition uisra_g (g : UniqueIndexSetRA.vgst) := UniqueIndexSetRA.vg g.
-Extraction "../ocaml/c09/model.ml" uisra_step1 uisra_init uisra_mk_ords uisra_set_oracle uisra_race_used uisra_oracle uisra_sc uisra_g uis_step1 uis_init uis_ginv_b uis_linv_b owned_by hd_head hd_aba hd_borrowed ruis_step1 ruis_init N.of_nat N.to_nat.
+Definition uisra_ords_code := UniqueIndexSetRA.uis_ords_code.
+Extraction "../ocaml/c09/model.ml" uisra_ords_code uisra_step1 uisra_init uisra_mk_ords uisra_set_oracle uisra_race_used uisra_oracle uisra_sc uisra_g uis_step1 uis_init uis_ginv_b uis_linv_b owned_by hd_head hd_aba hd_borrowed ruis_step1 ruis_init N.of_nat N.to_nat.
